@@ -24,9 +24,11 @@ class CloseSession(RPC):
 
     def request(self):
         "Request graceful termination of the NETCONF session, and also close the transport."
-        ret = self._request(new_ele("close-session"))
-        self.session.close()
-        return ret
+        try:
+            return self._request(new_ele("close-session"))
+        finally:
+            # also when the server does not answer (in time) or the reply is an error
+            self.session.close()
 
 
 class KillSession(RPC):
